@@ -1094,6 +1094,16 @@ def _aug(a, b, op):
     return [acc, a]
 
 
+def _loop_sum(n, mx):
+    v = n.v if hasattr(n, "v") else int(n)
+    if v < 0:
+        flag("negative secret loop bound")
+    if v > mx:
+        raise MustRaise("stop exceeds max")
+    return RInt(sum(i + 1 for i in range(v)))
+
+
+NAMES.update(_loop_sum=_loop_sum)
 NAMES.update(_aug=_aug, if_guard=lambda fn: fn, igprint=lambda *a, **k: None)      # unguarded, an if_guard-wrapped function is the function
 
 
